@@ -46,4 +46,32 @@ Section ControllerIteration.
     exact (block_fixed_point_any_schedule kO kI kadd kmul ksub kopp keqb Rth keqb_true imex lev xf tstart lend P L Hlev Hxf Hcopy R0 H0 Hchain
              (pfasst_iteration P L nsw jacobi) (pfasst_iteration_in_bounds L P nsw jacobi) p Hp HL Hv).
   Qed.
+
+  (* the whole run of a block: predictor followed by ANY number of iterations *)
+  Lemma in_bounds_repeat n ops : Forall (op_in_bounds L) ops -> Forall (op_in_bounds L) (repeat_ops n ops).
+  Proof. intros H. induction n as [|n IH]; cbn [repeat_ops]; [constructor | apply Forall_app; split; assumption]. Qed.
+
+  Theorem controller_run_fixed_point pt n nsw jacobi :
+    let ops := predict_ops P L pt ++ repeat_ops n (pfasst_iteration P L nsw jacobi) in
+    let B := run_ops kO kadd kmul ksub keqb imex lev xf tstart lend ops (init_block kO P R0) in
+    forall p, p < P ->
+      svalid (B p 0) = true /\
+      same (lev 0) (su (B p 0), sf (B p 0)) (su (R0 p), sf (R0 p)).
+  Proof.
+    intros ops B p Hp.
+    assert (Hb : Forall (op_in_bounds L) ops).
+    { apply Forall_app; split; [apply predict_ops_in_bounds | apply in_bounds_repeat, pfasst_iteration_in_bounds]. }
+    assert (Hv : svalid (B p 0) = true).
+    { unfold B.
+      pose proof (flags_run_ops kO kadd kmul ksub keqb imex lev xf tstart lend ops (init_block kO P R0)
+                    (fun p l => match l with 0 => Nat.ltb p P | S _ => false end, fun _ _ => false)) as HF.
+      destruct (HF ltac:(intros q [|l]; split; reflexivity) p 0) as [Hfl _]. rewrite Hfl.
+      unfold ops. rewrite fold_left_app.
+      apply (iterations_valid P L nsw jacobi n); [|exact Hp|lia].
+      apply (predict_ops_valid P L pt).
+      intros q l Hq Hl. assert (l = 0) by lia. subst l. cbn [fst]. apply Nat.ltb_lt. exact Hq. }
+    split; [exact Hv|].
+    exact (block_fixed_point_any_schedule kO kI kadd kmul ksub kopp keqb Rth keqb_true imex lev xf tstart lend P L Hlev Hxf Hcopy R0 H0 Hchain
+             ops Hb p Hp HL Hv).
+  Qed.
 End ControllerIteration.
